@@ -9,7 +9,7 @@ from .c04 import _present, zone_grid
 
 PROP = "C02"
 RULE = ("Generator: zones rasters (int/float ids incl. negative and fractional, scattered per cell, NaN/+-inf zone cells) x value rasters "
-        "(int8..int64/uint8/float32/float64, NaN/+-inf cells; zones and values independently C-/Fortran-ordered, strided views or read-only) x nodata {None, present, absent, 0, equal to a zone id} x zone_ids {None, subsets, "
+        "(int8..int64/uint8/float32/float64, NaN/+-inf cells; zones and values independently C-/Fortran-ordered, strided views or read-only) x nodata {None, present, absent, 0, equal to a zone id, next to valid values (4e-9 beside 0, 200001 beside 200000)} x zone_ids {None, subsets, "
         "permutations, absent ids} x stats_funcs {non-empty ordered subsets of the seven names, dict of order-independent user reducers} x "
         "return_type {DataFrame, DataArray}. Oracle: brute-force per-zone masks, statistics in float64 (fsum). Non-trivial: >= 2 zones present and one "
         "of: interleaved zones, an invalid cell inside a zone, a non-finite zone cell, a requested id that is absent, an empty zone. Distinct by SHA-1.")
@@ -51,7 +51,10 @@ def body_stats(case, ctx):
     nonfinite_zone = zn.dtype.kind == "f" and bool((~np.isfinite(zn)).any())
     absent = zone_ids is not None and any(z not in set(present) for z in zone_ids)
     empty_zone = any(not vm[zn == z].any() for z in ids)
-    r.nt = len(present) >= 2 and (interleaved or invalid_in_zone or nonfinite_zone or absent or empty_zone)
+    near_nodata = nodata is not None and bool((vm & np.isclose(np.where(np.isfinite(vn), vn, 0).astype("float64"), float(nodata))).any())
+    r.nt = len(present) >= 2 and (interleaved or invalid_in_zone or nonfinite_zone or absent or empty_zone or near_nodata)
+    if near_nodata:
+        r.label("valid_value_near_nodata")
     for name, flag in [("interleaved", interleaved), ("invalid_in_zone", invalid_in_zone), ("nonfinite_zone", nonfinite_zone),
                        ("absent_id", absent), ("empty_zone", empty_zone), ("user_reducers", user)]:
         if flag:
@@ -139,6 +142,16 @@ def stats_cases(draw, max_side, max_zones=5):
         vdata = draw(S.grid(h, w, pal))
     zpres = _present(zones)
     nodata = draw(st.sampled_from([None, None, 0, 99, pal[0], zpres[0] if zpres else 1]))
+    if vdtype in ("float64", "int32", "int64") and draw(st.integers(0, 5)) == 0:
+        # valid values that lie next to the nodata value without being equal to it ("differ from nodata" is exact, not approximate):
+        # tiny readings beside nodata 0, consecutive large codes beside a large nodata
+        nodata = draw(st.sampled_from([0, 100000, 200000, -5000, 1000000]))
+        if isf:
+            near = [nodata, nodata + 4e-9 if nodata == 0 else nodata * (1 + 1e-7), nodata - 2e-9 if nodata == 0 else nodata * (1 - 1e-6),
+                    nodata + 1, nodata - 0.5, nodata + 2]
+        else:
+            near = [nodata, nodata + 1, nodata + 2, nodata - 1, nodata + 7]
+        vdata = draw(S.grid(h, w, near, specials=["nan"] if isf else []))
     zone_ids = None
     if zpres and draw(st.booleans()):
         # absent ids incl. fractional neighbours of present ids (2.5 on an integer raster must match nothing) and large near-equal ids
